@@ -94,7 +94,7 @@ class Prop(BaseProp):
     def run_case(self, idx, rng):
         res = CaseResult()
         mod, b, mode = self.build(idx, rng)
-        lay = Layout(rng, comments=rng.choice([0.0, 0.3, 0.8]), wild=rng.choice([0.0, 0.3]), case="random")
+        lay = Layout(rng, comments=rng.choice([0.0, 0.3, 0.8]), wild=rng.choice([0.0, 0.3]), case="random", docforms=rng.choice([0.0, 0.0, 0.3]))
         text = render(mod, lay)
         exp = expected_entries(mod)
         res.sig = sig_hash(mod.shape())
